@@ -18,8 +18,10 @@ def run(ctx):
     J.j2_j3_constructor_round_trip(ctx)
     J.j4_equality_purity(ctx)
     J.j5_bijection_maps(ctx)
+    J.j6_all_rules_written(ctx)
+    ctx.floor("J6", 2)
     ctx.floor("J1", 14)
     ctx.floor("J2", 8)
     ctx.floor("J3", 9)
     ctx.floor("J4", 8)
-    ctx.floor("J5", 5)
+    ctx.floor("J5", 6)
